@@ -368,7 +368,27 @@ def half(rng, lo, hi):
     return rng.randint(int(lo * 2), int(hi * 2)) / 2.0
 
 
+def gen_stubpairs(rng):
+    """A layer in which NOTHING conflicts except two or three neighbouring stubs: a few labels far apart stay in layer 0, a small
+    group with (nearly) the same data position is sent outward by a low density, and its stubs land next to each other among the
+    free-standing labels - closer than stub width + line spacing (2), though clear of each other by the label spacing (< 2)."""
+    ns = rng.choice([0, 0, 0.5, 1, 1.5])
+    sw = rng.choice([0, 0, 0.5, 1])
+    x = rng.choice([60, 80, 75.5])
+    delta = rng.choice([0, sw + ns, sw + ns + 0.5, sw + 1, sw + 1.5])
+    w = rng.choice([10, 12.5, 20])
+    group = [[x + k * delta, w] for k in range(rng.choice([2, 2, 3]))]
+    others = [[10, 20], [rng.choice([40, 50]), rng.choice([10, 20])]][:rng.choice([1, 2])]
+    labels = others + group
+    rng.shuffle(labels)
+    opts = {"nodeSpacing": ns, "algorithm": "overlap", "density": rng.choice([0.4, 0.45, 0.5]), "stubWidth": sw,
+            "minPos": 0, "maxPos": rng.choice([100, 120])}
+    return {"labels": labels, "opts": opts}
+
+
 def gen_random(rng, mode):
+    if mode != "dense" and rng.random() < 0.12:
+        return gen_stubpairs(rng)
     if mode == "dense":
         n = rng.choice([20, 40, 80, 120, 150, 180, 200])
         span = rng.choice([2, 10, 50, 200])
